@@ -1,5 +1,212 @@
+import Agd.Model.ResultCache
 import Agd.Driver.Util
-/-! Line-protocol driver for the C12 model (stub: not built yet). -/
+/-!
+Line-protocol driver for the C12 model.
+
+The generic machines of `Agd.ResultCache` are instantiated with the identity hash (`S := Key`), a
+small concrete rule engine for the generator's rule grammar, and gcache's LRU policy expressed as
+explicit `evict` operations of the model (so every driver step is a sequence of model steps).
+-/
 namespace Agd.Driver.C12
-def main : IO Unit := Agd.Driver.loop (fun (s : Unit) _ => (s, "bad-op")) ()
+open Agd.ResultCache Agd.Driver
+
+/-! ### Concrete rule engine for the generator's grammar -/
+
+/-- `kind`: `B` block (`||dom^`), `A` allow (`@@||dom^`), `H` hosts-style (`ip dom`, exact host, requests and answers alike),
+`C` block for one client (`||dom^$client=ip`), `T` block type-A requests only
+(`||dom^$dnstype=A`), `R` safe-search rewrite (`|dom^$dnsrewrite=…`, exact
+host). -/
+structure Rule where
+  kind : String
+  dom : String
+  ip : String
+  ver : Nat
+
+def isSuffixDom (host dom : String) : Bool :=
+  host == dom || host.endsWith ("." ++ dom)
+
+/-- `sub` = 2 * qtype + isAns. -/
+def ruleMatches (r : Rule) (k : Key) (client : String) : Bool :=
+  match r.kind with
+  | "B" => isSuffixDom k.host r.dom
+  | "A" => isSuffixDom k.host r.dom
+  | "C" => isSuffixDom k.host r.dom && client == r.ip
+  | "H" => k.host == r.dom
+  | "T" => isSuffixDom k.host r.dom && k.sub == 2
+  | "R" => k.host == r.dom
+  | _ => false
+
+def engineOf (rules : List Rule) (k : Key) (client : String) : String :=
+  match rules.find? (fun r => ruleMatches r k client) with
+  | some r => r.kind ++ ":" ++ r.dom ++ ":" ++ toString r.ver
+  | none => "none"
+
+def parseRule (ver : Nat) (tok : String) : Rule :=
+  match tok.splitOn "|" with
+  | [k, d, ip] => { kind := k, dom := d, ip := ip, ver := ver }
+  | [k, d] => { kind := k, dom := d, ip := "", ver := ver }
+  | _ => { kind := "?", dom := "", ip := "", ver := ver }
+
+/-! ### LRU order (gcache) as a list, most recent first -/
+
+def touch {α : Type} [DecidableEq α] (l : List α) (k : α) : List α := k :: l.erase k
+
+/-- Victim to evict before inserting `k`, if any. -/
+def victim {α : Type} [DecidableEq α] (l : List α) (cap : Nat) (k : α) : Option α :=
+  if l.contains k then none else if l.length ≥ cap then l.getLast? else none
+
+/-! ### Driver state -/
+
+structure S where
+  rl : RL Key String String := { engine := fun _ _ => "none", cache := Tbl.empty, enabled := false }
+  rlLru : List Key := []
+  rlCap : Nat := 1
+  hp : HP Key := HP.init
+  hpRep : Rep := .host
+  hpHits : List (Nat × Res) := []
+  cu : CU := Tbl.empty
+  cuLru : List String := []
+  cuCap : Nat := 1
+
+/-- `hashableSubdomains` for hosts under a one-label ICANN suffix: the last four labels, then every
+label suffix with at least two labels. -/
+def suffixes : List String → List (List String)
+  | [] => []
+  | l :: ls => (l :: ls) :: suffixes ls
+
+def subsOf (host : String) : List String :=
+  let labels := host.splitOn "."
+  let labels := labels.drop (labels.length - 4)
+  ((suffixes labels).filter (fun ls => ls.length ≥ 2)).map (fun ls => ".".intercalate ls)
+
+def parseMode : String → Mode
+  | "nx" => .nxdomain
+  | "ref" => .refused
+  | "null" => .nullIP
+  | "c4" => .customIP true false
+  | "c6" => .customIP false true
+  | "c46" => .customIP true true
+  | _ => .customIP false false
+
+def parseQT : String → QT
+  | "1" => .a
+  | "28" => .aaaa
+  | "65" => .https
+  | _ => .other
+
+def parseRep : String → Rep
+  | "ip4" => .ip4
+  | "ip6" => .ip6
+  | _ => .host
+
+def showRes : Res → String
+  | .none => "none"
+  | .modReq rule => "modreq " ++ rule
+  | .modResp rule rcode ans ttl soa ede =>
+    "modresp " ++ rule ++ " rcode=" ++ toString rcode ++ " ans=" ++ toString ans ++ " ttl=" ++ toString ttl ++
+      " soa=" ++ showB soa ++ " ede=" ++ showB ede
+
+def parseReq (mode ttl ede edns qt : String) : Req :=
+  { mode := parseMode mode, ttl := nat! ttl, ede := bool! ede, edns := bool! edns, qt := parseQT qt }
+
+def hpStep (s : S) (op : HOp Key) : S × Option Res :=
+  let r := s.hp.step true subsOf s.hpRep id op
+  ({ s with hp := r.1 }, r.2)
+
+/-- A rule-list query with gcache's LRU order: `Get` refreshes recency, `Set` evicts the least
+recently used entry when full. -/
+def rlQuery (s : S) (k : Key) (client : String) : S × String :=
+  if !s.rl.enabled then
+    let r := s.rl.step id (.query k client)
+    ({ s with rl := r.1 }, r.2.getD "?")
+  else
+    match s.rl.lookup id k with
+    | some _ =>
+      let r := s.rl.step id (.query k client)
+      ({ s with rl := r.1, rlLru := touch s.rlLru k }, r.2.getD "?")
+    | none =>
+      let v := victim s.rlLru s.rlCap k
+      let rl1 := match v with
+        | some old => (s.rl.step id (.evict old)).1
+        | none => s.rl
+      let lru1 := match v with
+        | some old => s.rlLru.erase old
+        | none => s.rlLru
+      let r := rl1.step id (.query k client)
+      ({ s with rl := r.1, rlLru := touch lru1 k }, r.2.getD "?")
+
+def cuGet (s : S) (c : Conf) : S × Option (List String) :=
+  if !c.enabled || c.rules.isEmpty then (s, none)
+  else
+    -- `cache.Get` refreshes recency even when the item turns out to be stale.
+    let present := (s.cu c.id).isSome
+    let fresh := match s.cu c.id with
+      | some it => !(it.upd < c.upd)
+      | none => false
+    if fresh then
+      let r := s.cu.step (.get c)
+      ({ s with cu := r.1, cuLru := touch s.cuLru c.id }, r.2)
+    else
+      let v := if present then none else victim s.cuLru s.cuCap c.id
+      let cu1 := match v with
+        | some old => (s.cu.step (.evict old)).1
+        | none => s.cu
+      let lru1 := match v with
+        | some old => s.cuLru.erase old
+        | none => s.cuLru
+      let r := cu1.step (.get c)
+      ({ s with cu := r.1, cuLru := touch lru1 c.id }, r.2)
+
+def step (s : S) : List String → S × String
+  | ["rl", "new", enabled, cap] =>
+    ({ s with rl := { engine := fun _ _ => "none", cache := Tbl.empty, enabled := bool! enabled },
+              rlLru := [], rlCap := nat! cap }, "ok")
+  | "rl" :: "refresh" :: ver :: rules =>
+    let rs := rules.map (parseRule (nat! ver))
+    ({ s with rl := (s.rl.step id (.refresh (engineOf rs))).1, rlLru := [] }, "ok")
+  | ["rl", "q", client, host, sub] => rlQuery s ⟨host, nat! sub⟩ client
+  | ["hp", "new", rep] => ({ s with hp := HP.init, hpRep := parseRep rep, hpHits := [] }, "ok")
+  | "hp" :: "refresh" :: hosts =>
+    let s1 := (hpStep s (.store hosts)).1
+    ((hpStep s1 .clear).1, "ok")
+  | ["hp", "q", mode, ttl, ede, edns, qt, sub, host] =>
+    let r := s.hp.query true subsOf s.hpRep id ⟨host, nat! sub⟩ (parseReq mode ttl ede edns qt)
+    ({ s with hp := r.1 }, showRes r.2)
+  | ["hp", "begin", tid, mode, ttl, ede, edns, qt, sub, host] =>
+    let t := nat! tid
+    let pausable := fun (res : Res) => s.hpRep == .host && res != .none
+    let (s1, o1) := hpStep s (.begin t ⟨host, nat! sub⟩ (parseReq mode ttl ede edns qt))
+    match o1 with
+    | some res =>
+      if pausable res then ({ s1 with hpHits := (t, res) :: s1.hpHits }, "paused") else (s1, showRes res)
+    | none =>
+      let (s2, _) := hpStep s1 (.mtch t)
+      let m := ((findThread s2.hp.threads t).bind (·.matched)).getD ""
+      if s.hpRep == .host && m != "" then (s2, "paused")
+      else
+        let (s3, o3) := hpStep s2 (.finish t)
+        (s3, showRes (o3.getD .none))
+  | ["hp", "finish", tid] =>
+    let t := nat! tid
+    match s.hpHits.find? (fun p => p.1 == t) with
+    | some p => ({ s with hpHits := s.hpHits.filter (fun q => q.1 != t) }, showRes p.2)
+    | none =>
+      let (s1, o) := hpStep s (.finish t)
+      (s1, match o with | some res => showRes res | none => "no-thread")
+  | ["cu", "new", cap] => ({ s with cu := Tbl.empty, cuLru := [], cuCap := nat! cap }, "ok")
+  | "cu" :: "q" :: id :: upd :: enabled :: ver :: host :: doms =>
+    let c : Conf := { id := id, upd := int! upd, rules := doms.map (fun d => d ++ "#" ++ ver),
+                      enabled := bool! enabled }
+    let (s1, o) := cuGet s c
+    let out := match o with
+      | none => "none"
+      | some rules =>
+        match rules.find? (fun r => isSuffixDom host ((r.splitOn "#").headD "")) with
+        | some r => "B:" ++ (r.splitOn "#").headD "" ++ ":" ++ ((r.splitOn "#").getD 1 "")
+        | none => "none"
+    (s1, out)
+  | _ => (s, "bad-op")
+
+def main : IO Unit := loop step {}
+
 end Agd.Driver.C12
